@@ -46,8 +46,8 @@ def registrations(repo):
   """{lower name: (nargs, kind, node)} from create_function/create_aggregate."""
   fi = repo.func('sqlite3_logica.ExtendConnectionWithLogicaFunctions')
   out = {}
-  for c in walk_local(fi.node):
-    if isinstance(c, ast.Call) and call_tail(c) in ('create_function', 'create_aggregate'):
+  for c in tables.expand_calls(fi, ('create_function', 'create_aggregate')):
+    if True:
       if len(c.args) < 3 or const_str(c.args[0]) is None:
         raise AnalysisError('registration with a non-literal name: %s' % norm(c, 60))
       n = c.args[1].value if isinstance(c.args[1], ast.Constant) else None
@@ -131,7 +131,7 @@ def effective_sqlite(repo):
 def library_sqlexprs(repo, modname):
   """[(template, [fields])] for SqlExpr("..", {..}) occurrences in a library."""
   m = repo.by_name(modname)
-  text = const_str(m.module_assign('library'))
+  text = _library_text(m)
   if text is None:
     raise AnalysisError('%s.library is not a string constant' % modname)
   out = []
@@ -273,3 +273,13 @@ def run(chk):
            'the per-dialect overrides are written into a table shared by all QL '
            'instances: after compiling for another engine in the same process '
            'SQLite built-ins get that engine\'s templates', fi=fi)
+
+
+def _library_text(m):
+  """text of <dialect>_library.library: a string constant or a constant
+  expression over named string constants."""
+  try:
+    v = tables.const_value(m.module_assign('library'))
+  except AnalysisError:
+    return None
+  return v if isinstance(v, str) else None
